@@ -25,8 +25,14 @@ def gen(rng):
         weights = [Fraction(1)] * n
     else:
         weights = [Fraction(rng.randint(1, 9), rng.choice([1, 2, 10])) for _ in range(n)]
-        if rng.random() < 0.3:
+        r = rng.random()
+        if r < 0.3:
             weights = [weights[0]] * n
+        elif r < 0.5 and n >= 2:
+            # halving weights 2^k, ..., 2, 1, 1 over few distinct values: the conditional weight w_i / (w_i + ... + w_n)
+            # is 1/2 at every position, so equal elements at different positions differ only in their position
+            weights = [Fraction(2 ** max(n - 2 - i, 0)) for i in range(n)]
+            values = [rng.choice(ELEMS[:2]) for _ in range(n)]
     pair = rng.choice(["single", "same-id", "different-id"])
     return dict(values=values, weights=weights, kind=kind, pair=pair)
 
